@@ -58,6 +58,8 @@ EXTRA_GRAMMARS: Dict[str, Dict[str, List[str]]] = {
     "allnull": {"<start>": ["<A><B>"], "<A>": ["", "a"], "<B>": ["", "b<B>"]},
     "blocks": {"<start>": ["<block>"], "<block>": ["{<stmts>}"], "<stmts>": ["<stmt>", "<stmt><stmts>"],
                "<stmt>": ["<block>", "<decl>", "<use>"], "<decl>": ["d"], "<use>": ["u"]},
+    # terminals that look like nonterminals but are not (a blank inside the angle brackets), on a recursive path
+    "tagtext": {"<start>": ["<page>"], "<page>": ["<par>", "<par><br /><page>"], "<par>": ["p", "<b x>q"]},
 }
 
 
